@@ -29,6 +29,9 @@ exact(const uint8_t *src, size_t n) {
 #ifndef OBS
 #define OBS 1
 #endif
+#ifndef OSC
+#define OSC 0
+#endif
 #define LMAX 64
 
 typedef struct { uint8_t path[PL + 1]; uint8_t an[AN + 1]; uint8_t av[(AV > 0 ? AV : 0) + 1]; } rdesc_t;
@@ -51,6 +54,9 @@ ref_link(const rdesc_t *d, uint8_t *out) {
 #if OBS
   out[o++] = ';'; out[o++] = 'o'; out[o++] = 'b'; out[o++] = 's';
 #endif
+#if OSC
+  out[o++] = ';'; out[o++] = 'o'; out[o++] = 's'; out[o++] = 'c';     /* OSCORE-only marker */
+#endif
   return o;
 }
 
@@ -63,6 +69,9 @@ make_resource(const rdesc_t *d, coap_str_const_t *path, coap_attr_t *attr, coap_
   path->length = PL; path->s = d->path;
   x->uri_path = path;
   x->observable = OBS;
+#if OSC
+  x->flags |= COAP_RESOURCE_FLAGS_OSCORE_ONLY;
+#endif
 #if NATTR >= 1
   memset(attr, 0, sizeof(*attr));
   an->length = AN; an->s = d->an;
